@@ -108,7 +108,10 @@ func RunProperty(o Options) (int, error) {
 
 func init() {
 	Properties["C13"] = func(env *Env) []*Harness { return []*Harness{HExported()} }
-	Properties["C20"] = func(env *Env) []*Harness { return []*Harness{HPairName(), HMock()} }
+	Properties["C20"] = func(env *Env) []*Harness { return []*Harness{HPairName(), HMock(), HRun()} }
+	Properties["C17"] = func(env *Env) []*Harness { return []*Harness{HRun(), HMain(), HMock()} }
+	Properties["C15"] = func(env *Env) []*Harness { return []*Harness{HRun()} }
+	Properties["C18"] = func(env *Env) []*Harness { return []*Harness{HRun()} }
 }
 
 func tail(ss []string, n int) []string {
